@@ -53,6 +53,10 @@ inline int g_dyn_alias[NK]; // which alias objects of class i carry
 #define TAG_prj 1
 #define HX_CHECKED 1
 #endif
+#if defined(TAG_inh) // integer ids, identity projection, WITH the type hash; ids start at 0
+#define TAG_int 1
+#define HX_INT_HASH 1
+#endif
 #if defined(TAG_int) || defined(TAG_prj) || defined(TAG_dfr)
 #define HX_CUSTOM_RTTI 1
 template<class T>
@@ -75,7 +79,7 @@ struct custom_rtti_base {
         if constexpr (i >= 0)
             return g_ids[i][0];
         else
-            return 0;
+            return 1000000; // not a class of the registry (methods, ...)
     }
     template<typename T>
     static type_id dynamic_type(const T& obj) {
@@ -142,6 +146,9 @@ struct P : policy::release::rebind<P>::replace<
                policy::error_handler, policy::throw_error> {};
 #define HX_TAG "thr"
 #define HX_THROW_FACET 1
+#elif defined(TAG_int) && defined(HX_INT_HASH)
+struct P : policy::release::rebind<P>::replace<policy::rtti, custom_rtti> {};
+#define HX_TAG "inh"
 #elif defined(TAG_int)
 struct P : policy::release::rebind<P>::replace<policy::rtti, custom_rtti>::
                remove<policy::type_hash> {};
@@ -222,6 +229,8 @@ inline void init_ids() {
 #if defined(TAG_prj)
         g_ids[c][0] = 2 * c + 2;
         g_ids[c][1] = 2 * c + 3;
+#elif defined(HX_INT_HASH)
+        g_ids[c][0] = g_ids[c][1] = c; // 0 is a legal id
 #else
         g_ids[c][0] = g_ids[c][1] = c + 1;
 #endif
@@ -329,6 +338,7 @@ using method_of =
 // compiled with the generated header
 constexpr int SO_BASE = 83;
 static_assert(SHAPES[SO_BASE] == "R" && SHAPES[SO_BASE + 3] == "RRRR");
+static_assert(SHAPES[SO_BASE + 4] == "V" && SHAPES[SO_BASE + 7] == "RVRV");
 
 constexpr int shape_arity(int s) {
     int k = 0;
@@ -363,6 +373,26 @@ struct static_offsets<hx::method_of<hx::SO_BASE + 2>> {
 };
 template<>
 struct static_offsets<hx::method_of<hx::SO_BASE + 3>> {
+    static inline std::size_t slots[4];
+    static inline std::size_t strides[3];
+};
+// the same with virtual_ptr parameters (shapes V, RV, VRV, RVRV)
+template<>
+struct static_offsets<hx::method_of<hx::SO_BASE + 4>> {
+    static inline std::size_t slots[1];
+};
+template<>
+struct static_offsets<hx::method_of<hx::SO_BASE + 5>> {
+    static inline std::size_t slots[2];
+    static inline std::size_t strides[1];
+};
+template<>
+struct static_offsets<hx::method_of<hx::SO_BASE + 6>> {
+    static inline std::size_t slots[3];
+    static inline std::size_t strides[2];
+};
+template<>
+struct static_offsets<hx::method_of<hx::SO_BASE + 7>> {
     static inline std::size_t slots[4];
     static inline std::size_t strides[3];
 };
